@@ -4,15 +4,15 @@
 S=$(readlink -f "$1"); P=$2; T=${3:-quick}
 W=$(mktemp -d /tmp/sc-XXXXXX); rmdir "$W"
 git -C /repo worktree add -q --detach "$W" HEAD || exit 2
-trap 'git -C /repo worktree remove --force "$W" >/dev/null 2>&1; rm -rf "$W"' EXIT
+trap 'git -C /repo worktree remove --force "$W" >/dev/null 2>&1; rm -rf "$W" "$W.log"' EXIT
 cd "$W" || exit 2
 if ! git apply "$S/patch.diff"; then echo "RESULT patch does not apply"; exit 0; fi
 mkdir -p out/k && cp "$S"/demo.py out/k/demo.py
 tests=$(/venv/bin/python -m pytest -q -p no:cacheprovider -n 12 tests 2>&1 | tail -1)
 /venv/bin/python out/k/demo.py >/dev/null 2>&1; d1=$?
 cd /verif
-VERIF_REPO="$W" VERIF_NO_EVIDENCE=1 ./check "$P" "$T" > /tmp/sc-last.log 2>&1; c=$?
+VERIF_REPO="$W" VERIF_NO_EVIDENCE=1 ./check "$P" "$T" > "$W.log" 2>&1; c=$?
 cd "$W" && git checkout -q -- . && /venv/bin/python out/k/demo.py >/dev/null 2>&1; d0=$?
 echo "RESULT tests=[$tests] demo_with=$d1 demo_without=$d0 check_exit=$c"
-grep -m3 "key=" /tmp/sc-last.log | cut -c1-240
-tail -1 /tmp/sc-last.log | cut -c1-200
+grep -m3 "key=" "$W.log" | cut -c1-240
+tail -1 "$W.log" | cut -c1-200
